@@ -950,6 +950,7 @@ class C17(E2EProp):
         ui.check_waiting(rng, tier, report)
         ui.check_histories(rng, tier, report)
         ui.check_batched(rng, tier, report)
+        ui.check_coverage(rng, tier, report)
 
 class C18(E2EProp):
     id = "C18"; module = "Adsb.Theorems.C18"; design_ref = "5/C18"
